@@ -30,8 +30,11 @@ structure Cmd where
 deriving DecidableEq, Repr, Inhabited
 
 /-- A scripted iterator / inner generator (see design/C09.md for the JavaScript each one denotes).
-`ret`: 0 = no `return` method, 1 = `return(v)` answers `{value: v, done: true}`, 2 = `return` throws the string "X<id>".
-`thr`: 0 = no `throw` method, 1 = rethrows, 2 = returns `{done:true}`, 3 = returns `{done:false}`. -/
+`ret`: 0 = no `return` method, 1 = `return(v)` answers `{value: v, done: true}`, 2 = `return` throws the string "X<id>",
+3 = `return` answers a non-object (the number 5).
+`thr`: 0 = no `throw` method, 1 = rethrows, 2 = returns `{done:true}`, 3 = returns `{done:false}`, 4 = returns a non-object.
+`id ≥ 10` (object kind): the iterator's SECOND `next()` call makes a re-entrant call on the generator under test
+(`id / 10 - 1` = 0 next / 1 throw / 2 return), catches what it throws and logs it. -/
 structure IterSpec where
   id : Nat
   isGen : Bool
@@ -179,52 +182,6 @@ def spreadOf : Val → Option (List Val)
   | .str s => some (s.toList.map (fun c => .str (String.singleton c)))
   | _ => none
 
-/-! ## Scripted iterators -/
-
-def IterSpec.tag (s : IterSpec) : String := "I" ++ natStr s.id
-def IterSpec.hasThrow (s : IterSpec) : Bool := s.isGen || s.thr != 0
-def IterSpec.hasReturn (s : IterSpec) : Bool := s.isGen || s.ret != 0
-def IterState.init (s : IterSpec) : IterState := ⟨s, 0, false⟩
-
-inductive IterOut where
-  | yielded (v : Val) (st : IterState)
-  | done (v : Val)
-  | threw (v : Val)
-deriving Repr, Inhabited
-
-def iterNext (st : IterState) (v : Val) : List Event × IterOut :=
-  let s := st.spec
-  let ev : List Event := if s.isGen && !st.started then [] else [s.tag ++ "n" ++ showVal v]
-  match s.items[st.pos]? with
-  | some it => (ev, .yielded it { st with pos := st.pos + 1, started := true })
-  | none => (if s.isGen then ev ++ [s.tag ++ "f"] else ev, .done (.str ("R" ++ natStr s.id)))
-
-/-- Only called when `hasThrow`. -/
-def iterThrow (st : IterState) (e : Val) : List Event × IterOut :=
-  let s := st.spec
-  if s.isGen then ([s.tag ++ "f"], .threw e)
-  else
-    let ev := [s.tag ++ "t" ++ showVal e]
-    if s.thr == 2 then (ev, .done (.str ("T" ++ natStr s.id)))
-    else if s.thr == 3 then (ev, .yielded (.str ("C" ++ natStr s.id)) st)
-    else (ev, .threw e)
-
-/-- Only called when `hasReturn`. -/
-def iterReturn (st : IterState) (v : Val) : List Event × IterOut :=
-  let s := st.spec
-  if s.isGen then ([s.tag ++ "f"], .done v)
-  else if s.ret == 2 then ([s.tag ++ "r" ++ showVal v], .threw (.str ("X" ++ natStr s.id)))
-  else ([s.tag ++ "r" ++ showVal v], .done v)
-
-/-- IteratorClose (§7.4.11) / `returnIter` (runtime.go): calls `return()` without arguments if present; the second
-component is the error `return()` threw, if any (the caller decides whether it replaces the completion). -/
-def iterClose (st : IterState) : List Event × Option Val :=
-  if st.spec.hasReturn then
-    match iterReturn st .undef with
-    | (ev, .threw e) => (ev, some e)
-    | (ev, _) => (ev, none)
-  else ([], none)
-
 /-! ## The generator object's decision before any body code runs (func.go:916 validate, 982 next, 1004 throw,
 1035 _return) — non-recursive so that the body's re-entrant calls can use it. -/
 
@@ -251,6 +208,72 @@ def genPre (tag : GTag) (cmd : Cmd) : Pre :=
     | .throw => .answer (.t cmd.payload)                             -- :1006-1010
     | .ret => .answer (.d cmd.payload)                               -- :1037-1042
   | .susp => .resume
+
+/-! ## Scripted iterators -/
+
+def IterSpec.tag (s : IterSpec) : String := "I" ++ natStr s.id
+def IterSpec.hasThrow (s : IterSpec) : Bool := s.isGen || s.thr != 0
+def IterSpec.hasReturn (s : IterSpec) : Bool := s.isGen || s.ret != 0
+def IterState.init (s : IterSpec) : IterState := ⟨s, 0, false⟩
+
+inductive IterOut where
+  | yielded (v : Val) (st : IterState)
+  | done (v : Val)
+  | threw (v : Val)
+deriving Repr, Inhabited
+
+/-- What a re-entrant driver call made from inside one of the iterator's methods evaluates to: the generator that is
+delegating to (or iterating over) this iterator is RUNNING, so GeneratorValidate rejects the call (§27.5.3.2). -/
+def reentOutcome (kd : CmdKind) : Val :=
+  match genPre .executing ⟨kd, .num 9⟩ with
+  | .reject => .terr
+  | _ => .undef
+
+def IterSpec.reentKind (s : IterSpec) : Option CmdKind :=
+  if s.isGen || s.id < 10 then none
+  else match s.id / 10 - 1 with
+    | 0 => some .next
+    | 1 => some .throw
+    | _ => some .ret
+
+def iterNext (st : IterState) (v : Val) : List Event × IterOut :=
+  let s := st.spec
+  let ev : List Event := if s.isGen && !st.started then [] else [s.tag ++ "n" ++ showVal v]
+  let ev : List Event :=
+    match s.reentKind with
+    | some kd => if st.pos == 1 && 1 < s.items.length then ev ++ [s.tag ++ "x" ++ showVal (reentOutcome kd)] else ev
+    | none => ev
+  match s.items[st.pos]? with
+  | some it => (ev, .yielded it { st with pos := st.pos + 1, started := true })
+  | none => (if s.isGen then ev ++ [s.tag ++ "f"] else ev, .done (.str ("R" ++ natStr s.id)))
+
+/-- Only called when `hasThrow`. -/
+def iterThrow (st : IterState) (e : Val) : List Event × IterOut :=
+  let s := st.spec
+  if s.isGen then ([s.tag ++ "f"], .threw e)
+  else
+    let ev := [s.tag ++ "t" ++ showVal e]
+    if s.thr == 2 then (ev, .done (.str ("T" ++ natStr s.id)))
+    else if s.thr == 3 then (ev, .yielded (.str ("C" ++ natStr s.id)) st)
+    else if s.thr == 4 then (ev, .threw .terr)        -- result is not an object: TypeError (§15.5.5 7.b.iii)
+    else (ev, .threw e)
+
+/-- Only called when `hasReturn`. -/
+def iterReturn (st : IterState) (v : Val) : List Event × IterOut :=
+  let s := st.spec
+  if s.isGen then ([s.tag ++ "f"], .done v)
+  else if s.ret == 2 then ([s.tag ++ "r" ++ showVal v], .threw (.str ("X" ++ natStr s.id)))
+  else if s.ret == 3 then ([s.tag ++ "r" ++ showVal v], .threw .terr)   -- result is not an object: TypeError
+  else ([s.tag ++ "r" ++ showVal v], .done v)
+
+/-- IteratorClose (§7.4.11) / `returnIter` (runtime.go): calls `return()` without arguments if present; the second
+component is the error `return()` threw, if any (the caller decides whether it replaces the completion). -/
+def iterClose (st : IterState) : List Event × Option Val :=
+  if st.spec.hasReturn then
+    match iterReturn st .undef with
+    | (ev, .threw e) => (ev, some e)
+    | (ev, _) => (ev, none)
+  else ([], none)
 
 /-! ## The machine -/
 
